@@ -69,6 +69,8 @@ func propConfigs() map[string]*PropConfig {
 		Explain: "the real untyped.ConvertLiteralCheckOverflow (with base/reflect.ConvertValue) and Lit.extractNumber / Lit.Convert are executed on symbolic constants; go/constant values are modelled as exact integers"})
 	add(&PropConfig{ID: "C03", Prefix: "VH_C03_", StrBytes: 8, Sets: []HarnessSet{hfiles("fast", fastLib, "fast/c03_gen.go")},
 		Explain: "the real Comp.convert is executed for every ordered pair of numeric basic kinds (non-constant operand) and a sample of constant operands; the returned closure / constant is compared with Go's conversion T(x) for all operand values for which the specification defines the result"})
+	add(&PropConfig{ID: "C08", Prefix: "VH_C08_", StrBytes: 8, Sets: []HarnessSet{hfiles("fast", fastLib, "fast/c08_index_gen.go", "fast/c08.go")},
+		Explain: "the real vectorIndex, stringIndex, mapIndex, mapIndex1, slice2, slice3 and sliceString compile functions are executed per element kind and constness shape on symbolic slices, strings and maps; the returned closures are compared with Go's indexing / slicing / map reads including panic equivalence"})
 	xrp := "(*github.com/cosmos72/gomacro/xreflect.xtype)."
 	add(&PropConfig{ID: "C34", Prefix: "VH_C34_", Sets: []HarnessSet{hfiles("xreflect", "xreflect/lib_xreflect.go", "xreflect/c34_gen.go")},
 		Redirect: map[string]string{xrp + "NumMethod": "vhModelNumMethod", xrp + "Method": "vhModelMethod", xrp + "GetMethods": "vhModelGetMethods"},
